@@ -65,7 +65,6 @@ func runC17(c *Ctx) {
 				return
 			}
 			// a line without enhanced code must be unreachable when one is set
-			reach, _ := c.ReachableUnder(in, []string{"phi{param2|local:enhCode} != NoEnhancedCode"})
 			ff := c.F.Analyze(f)
 			guarded := false
 			for a := range ff.At(in) {
@@ -73,7 +72,6 @@ func runC17(c *Ctx) {
 					guarded = true
 				}
 			}
-			_ = reach
 			R.Ob(c.siteKey(in, "line without enhanced code only when none is set"), c.P.InstrPos(in), guarded,
 				"the line format "+format+" is printed for replies that do have an enhanced code: a multi-line SMTPError{550,{5,1,1},\"a\\nb\"} is sent as \"550-a / 550 5.1.1 b\" and the client reads it back as EnhancedCode{0,0,0} with message \"a\\n5.1.1 b\"")
 		})
@@ -280,6 +278,22 @@ func ruleNoSMTPErrorMutation(c *Ctx) {
 func ruleClientParse(c *Ctx) {
 	R := c.R
 	_, s := c.Std()
+	// the client reads replies below a line limiter of its own: a verdict line longer than that limit does not come
+	// back as an SMTPError at all. The limit is a constant of the client; it may grow, it must not shrink below what
+	// the client has been accepting (2000 octets, the server's own default line limit) or be lost on a reconnect.
+	nLim := 0
+	for _, st := range c.Sites("st:lineLimitReader.LineLimit") {
+		if funcName(st.Parent()) != "(*Client).setConn" {
+			continue
+		}
+		nLim++
+		_, _, v := storedField(st)
+		k, isK := constInt(v)
+		R.Ob(c.siteKey(st, "client reply line limit is at least 2000"), c.P.InstrPos(st), isK && (k == 0 || k >= 2000), "the client refuses reply lines longer than "+describe(v)+" octets: a backend verdict whose text the server sends intact comes back as a bare \"too long a line\" error")
+	}
+	if f := c.A.Func("(*Client).setConn"); f != nil {
+		R.Ob("(*Client).setConn/sets the reply line limit", c.P.Pos(f.Pos()), nLim >= 1, "setConn no longer sets a line limit constant")
+	}
 	for _, f := range c.P.AllFuncs() {
 		if !strings.HasPrefix(funcName(f), "(*Client).") && !strings.HasPrefix(funcName(f), "(*dataCloser).") {
 			continue
